@@ -1,0 +1,33 @@
+// Copyright 2026 SCION Association
+//
+// Licensed under the Apache License, Version 2.0 (the "License");
+// you may not use this file except in compliance with the License.
+// You may obtain a copy of the License at
+//
+//   http://www.apache.org/licenses/LICENSE-2.0
+//
+// Unless required by applicable law or agreed to in writing, software
+// distributed under the License is distributed on an "AS IS" BASIS,
+// WITHOUT WARRANTIES OR CONDITIONS OF ANY KIND, either express or implied.
+// See the License for the specific language governing permissions and
+// limitations under the License.
+
+//go:build verif
+
+package router
+
+// VerifPoolHook, when set (before the data plane runs), is called on every PacketPool.Get (op 0,
+// after the packet left the pool) and PacketPool.Put (op 1, before the packet enters the pool).
+var VerifPoolHook func(op int, pkt *Packet)
+
+func verifPoolGet(pkt *Packet) {
+	if h := VerifPoolHook; h != nil {
+		h(0, pkt)
+	}
+}
+
+func verifPoolPut(pkt *Packet) {
+	if h := VerifPoolHook; h != nil {
+		h(1, pkt)
+	}
+}
